@@ -189,7 +189,7 @@ func (k *ktrans) translate1(key string) (*kfunc, error) {
 		return nil, fmt.Errorf("%s is generic", key)
 	}
 	f := &kfunc{key: key, coqName: "go_" + strings.ReplaceAll(key, ".", "_"), decl: d, file: fd.file}
-	c := &fctx{k: k, fn: f, file: fd.file, env: map[*ast.Object]*vinfo{}, used: map[string]bool{}}
+	c := &fctx{k: k, fn: f, file: fd.file, env: map[*ast.Object]*vinfo{}, used: map[string]bool{}, consts: map[*ast.Object]val{}}
 	var binders []string
 	var pre strings.Builder
 	addParam := func(id *ast.Ident, te ast.Expr) error {
